@@ -4,6 +4,7 @@ Only property theorems and non-vacuity examples live here; helper lemmas are in
 `FDAProofs/Lemmas/Quadrature.lean`.
 -/
 import FDAProofs.Lemmas.Quadrature
+import FDAProofs.Lemmas.Simpson
 import FDAModel.Geometry
 import Mathlib.Algebra.Order.BigOperators.Group.Finset
 
@@ -406,5 +407,42 @@ theorem trapz_standGrid (n : ℕ) (t y : ℕ → ℚ) :
   · simp [h]
   · field_simp
     ring
+
+
+/-! ### the package's own Simpson weights -/
+
+/-- On a uniform grid with `2k+1` points the coded Simpson weights are the composite pattern
+`h/3 · (1, 4, 2, 4, …, 2, 4, 1)`. -/
+theorem simpsonW_uniform (a h : ℚ) (k j : ℕ) (hk : 1 ≤ k) (hj : j < 2 * k + 1) :
+    simpsonW (2 * k + 1) (fun i => a + i * h) j =
+      if j = 0 ∨ j = 2 * k then h / 3 else if j % 2 = 1 then 4 * h / 3 else 2 * h / 3 :=
+  FDA.simpsonW_uniform a h k j hk hj
+
+/-- **Simpson exactness of the package's own weights.**  On a uniform grid with an odd
+number `2k+1 ≥ 3` of points, `Σ_j simpsonW_j · f(t_j)` is the exact integral of every cubic
+polynomial `f(x) = c₀ + c₁x + c₂x² + c₃x³` (written with its antiderivative). -/
+theorem simpsonW_exact_cubic (a h c0 c1 c2 c3 : ℚ) (k : ℕ) (hk : 1 ≤ k) :
+    let t : ℕ → ℚ := fun i => a + i * h
+    let f : ℚ → ℚ := fun x => c0 + c1 * x + c2 * x ^ 2 + c3 * x ^ 3
+    let F : ℚ → ℚ := fun x => c0 * x + c1 * x ^ 2 / 2 + c2 * x ^ 3 / 3 + c3 * x ^ 4 / 4
+    ∑ j ∈ range (2 * k + 1), simpsonW (2 * k + 1) t j * f (t j) = F (t (2 * k)) - F (t 0) := by
+  intro t f F
+  have hw : ∀ j ∈ range (2 * k + 1), simpsonW (2 * k + 1) t j * f (t j) = FDA.simpsonPat h k j * f (t j) := by
+    intro j hj
+    rw [FDA.simpsonW_uniform a h k j hk (mem_range.mp hj)]
+    rfl
+  rw [Finset.sum_congr rfl hw, FDA.simpsonPat_sum_panels h (fun j => f (t j)) k hk]
+  have hpanel : ∀ i, h / 3 * (f (t (2 * i)) + 4 * f (t (2 * i + 1)) + f (t (2 * i + 2)))
+      = F (t (2 * (i + 1))) - F (t (2 * i)) := by
+    intro i
+    simp only [t, f, F]
+    push_cast
+    ring
+  simp_rw [hpanel]
+  rw [Finset.sum_range_sub (fun i => F (t (2 * i)))]
+
+/-- Non-vacuity / sanity: ∫₀² x³ dx = 4 with three nodes. -/
+example : ∑ j ∈ range 3, simpsonW 3 (fun i => (i : ℚ)) j * ((j : ℚ) ^ 3) = 4 := by
+  norm_num [Finset.sum_range_succ, simpsonW]
 
 end C08
